@@ -22,7 +22,7 @@ lat1_s = st.one_of(S.floats(-90, 90), S.floats(-90, 90), S.floats(-90, 90), st.s
 lon1_s = st.one_of(S.floats(-180, 180), S.floats(-180, 180), st.sampled_from([0.0, 180.0, -180.0, 90.0, -90.0, 179.999999, -179.999999]))
 az_s = st.one_of(S.floats(0, 360), S.floats(0, 360), st.sampled_from([0.0, 90.0, 180.0, 270.0, 360.0, 1e-9, 89.999999999, 90.000000001,
                                                                      180.000000001, 359.999999999, 45.0]))
-dist_s = st.one_of(S.floats(0.0, 2e7), S.floats(0.0, 2e7), S.log_uniform(1e-3, 2e7), S.log_uniform(1e-3, 2e7),
+dist_s = st.one_of(S.floats(0.0, 2e7), S.floats(0.0, 2e7), S.log_uniform(1e-3, 2e7), S.log_uniform(1.0, 2e7), S.log_uniform(1e3, 1e6),
                    st.sampled_from([0.0, 1e-3, 1.0, 1e7, 2e7, 10001965.729]))
 ell_s = S.ellipsoid_spec(280.0, 320.0)
 
